@@ -18,6 +18,7 @@ Clauses the unchanged tree violates are stated in full in `Witness.lean`, refute
 run, and proved here in their `_partial` form under an explicit decidable exclusion.
 -/
 import CaddyModel.C02.Lemmas
+import CaddyModel.C02.Witness
 
 namespace CaddyModel.C02
 
@@ -246,6 +247,27 @@ theorem accepted_by_a_holder {s : State} {t : Nat} {g : Gen} {a : Addr}
     (he : enabled s (.accept t g a) = true) : g ∈ servers s a := by
   obtain ⟨x, hx, hg⟩ := (Sock.holds_iff _ _).mp (by simpa [enabled, State.holds] using he)
   exact List.mem_map.mpr ⟨x, hx, hg⟩
+
+/-! ### when the exclusion `zombies = []` holds -/
+
+/-- **The exclusion is about rejected loads only.**  As long as no load has been rejected after its
+    HTTP app had started (`everRejected = false`: every load so far was accepted), no `unixSockets`
+    entry is ever stale, the failing `Listen` (`bindStale`) is never enabled and no config is left
+    half-started — so every `_partial` theorem above applies to every state of every history of
+    accepted reloads, whatever the schedule. -/
+theorem no_rejected_reload_no_zombies {s : State} (h : Reach s) (hr : s.everRejected = false) :
+    s.zombies = [] ∧ (∀ a, a.unix = true → (s.socks a).stale = false) ∧ (∀ a, enabled s (.bindStale a) = false) := by
+  have k := h.kinv hr
+  refine ⟨k.noZombies, fun a hu => k.not_stale hu, fun a => ?_⟩
+  cases hu : a.unix
+  · simp [enabled, hu]
+  · simp [enabled, k.not_stale hu]
+
+/-- served_by_old_or_new for histories without a rejected load, exclusion-free form -/
+theorem served_by_old_or_new_of_no_rejection {s : State} (h : Reach s) (hr : s.everRejected = false)
+    {c : Cfg} (hc : s.cur = some c) {a : Addr} (ha : a ∈ c.addrs) :
+    connect s a ≠ [] ∧ ∀ o, o ∈ connect s a → ∃ g, o = .answered g ∧ alive s g :=
+  connect_current_address_answered h (no_rejected_reload_no_zombies h hr).1 hc ha
 
 /-! ### the order matters -/
 
